@@ -16,10 +16,10 @@ CLAIMED = {
  "C10": ("5.10", "Superposition theorems (cout on a*x+b*y = a*out(x)+b*out(y)) for all eight linear views, all N / gamma; DC gains: exact reproduction (Sma, Ema, Alma, Laguerre), SuperSmoother converges, Roofing and CyberCycle(N>=6) decay to 0 after any prefix; CyberCycle N in {4,5} refuted (known finding D11).", T),
  "C11": ("5.11", "Streaming = batch difference equations at every history for SuperSmoother, Roofing, LaguerreFilter, CyberCycle (N>=6; all N>=3 against the generalised spec), TrendFlex, ReFlex, LaguerreRSI, EFT and PFE (for any MA view, through the list the MA receives); coefficients as functions of N only. Tie: implementation vs python batch re-evaluation with shared surrogate exp/cos/sin, exact.", T),
  "C12": ("5.12", "Invariance theorems under a*x+b, a*x, -x for every view the property names (proved on the closed forms); Vst on flat windows (W2) is refuted and carried as a known finding; the power-of-two f64 clause is proved for every listed view at any radix-2 FLX format (binary64 without underflow/overflow).", T),
- "C13": ("5.13", "WelfordRolling mean/std (population), Drawdown (= max over j of (peak_j - x_j)/peak_j, proved equal to the literal definition), LnReturn closed forms for all positive streams. Tie: batch definitions on the implementation, exact.", T),
- "C14": ("5.14", "Theorems over the generic model (any scalar, any child views): each combinator's output list is the pointwise lift of its children's output lists, GTE/LTE hold only while the child is silent, the combinator state is the tuple of child states. Tie: exact-rational and f64-bit pointwise recomputation on the implementation.", T),
+ "C13": ("5.13", "WelfordRolling mean/std (population), Drawdown (= max over j of (peak_j - x_j)/peak_j, proved equal to the literal definition), LnReturn closed forms for all positive streams; the clause \"without the error growing beyond rounding noise\" is quantified: WelfordRolling mean drift (linear in t, sharp) and variance drift (wr_var_drift, linear in t) in the standard rounding model with binary64 instances, and Drawdown within 3 x 2^-53 of the exact answer at the primitive-float instance for every positive stream (drawdown_f64_accuracy). Tie: batch definitions on the implementation, exact.", T),
+ "C14": ("5.14", "Theorems over the generic model (any scalar, any child views): each combinator's output list is the pointwise lift of its children's output lists, GTE/LTE hold only while the child is silent, the combinator state is the tuple of child states; at the primitive-float instance Add/Subtract/Multiply/Divide are the correctly rounded IEEE operation on the children's current outputs and GTE/LTE/Echo/Constant are exact (FAccBComb). Tie: exact-rational and f64-bit pointwise recomputation on the implementation.", T),
  "C15": ("5.15", "no_panic: for every descriptor tree whose window lengths meet the guards (okd) and every in-domain input list the model run has no Err (index, underflow, unwrap, division, sqrt/ln domain); constructors reject what update() cannot handle (new_rejects). Tie: Err in the model iff panic/non-finite in the code at the same step (exact scalar with debug assertions), f64 debug+release runs N up to 64. The former f64-only failure of Rsi (D14: -inf / debug panic) was repaired; rsi_flat_f64 proves the flat-window answer at the primitive-float instance.", T),
- "C16": ("5.16", "Partial by nature. Exact half: flat-window answers proved at R for every listed view. Float half: model@float (PrimFloat) is the same generic model; 250 recorded f64 runs of the code are reproduced bit-for-bit inside Coq (flt_cases_green); kernel-checked refutations (Vst, Vsct stuck for ever on flat windows: WelfordOnline residue) are known findings, the Rsi/MyRSI ones were repaired and are now positive theorems for all streams (rsi_flat_f64, myrsi_flat_f64); bridge theorems (PrimFloat run = binary64-rounded run under finiteness) and standard-model drift bounds for the Sma/Cumulative running sums (with the Flocq binary64 discharge). Everything else (1e-6 tracking over 2e4-step streams, all views) is a search on the implementation against the exact scalar, reported as exploration.", "Rocq proof (exact half, vm_compute refutations on primitive floats, Flocq drift bounds) + f64-vs-exact search"),
+ "C16": ("5.16", "Partial by nature. Exact half: flat-window answers proved at R for every listed view. Float half: model@float (PrimFloat) is the same generic model; 250 recorded f64 runs of the code are reproduced bit-for-bit inside Coq (flt_cases_green); kernel-checked refutations (Vst, Vsct stuck for ever on flat windows: WelfordOnline residue) are known findings, the Rsi/MyRSI ones were repaired and are now positive theorems for all streams (rsi_flat_f64, myrsi_flat_f64); bridge theorems (PrimFloat run = binary64-rounded run under finiteness) and standard-model drift bounds for the Sma/Cumulative running sums, Ema, and the Welford accumulators (mean, m2, variance, std, and the amplification in Vst/Vsct: welford_m2_drift, vst_drift; the residue provably need not vanish: welford_m2_residue_persists) with the Flocq binary64 discharge; length-independent f64 accuracy at the primitive-float instance for the recomputing views (HLN 8 ulp, NET correctly rounded, Rsi, Roc 3.01 ulp relative, Drawdown 3 ulp, CoG on positive inputs) with refutations where it is false (MyRSI next to 2^53, CTI/CoG under cancellation). Everything else (1e-6 tracking over 2e4-step streams, all views) is a search on the implementation against the exact scalar, reported as exploration.", "Rocq proof (exact half, vm_compute refutations on primitive floats, Flocq drift bounds) + f64-vs-exact search"),
  "C17": ("5.17", "Schedule semantics over instance tables: every observation equals vlast at the state reached by that instance's update lineage (sched_run_lineage, lineage_obs), last() is pure and erasable, same lineage => same observation, clone and instance independence. Generic, axiom-free. Tie: random update/last/clone schedules on the implementation compared with fresh instances fed the lineage (exact and f64 bits) and with the model's schedule semantics; static scan for shared/interior-mutable state.", T),
  "C18": ("5.18", "pop_bound_sound: for every descriptor tree and every input list the number of buffered elements is <= pop_bound(descriptor), a function of the window lengths only (generic, axiom-free). Tie: Debug-dump element counts of the implementation at every step against the proved bound, long runs for constancy, live heap bytes at L, 2L, 4L with a counting allocator (measurement).", T + "; allocator measurement as supporting exploration"),
 }
